@@ -295,3 +295,17 @@ Proof.
 Qed.
 
 End Swap34.
+
+(* ------------------------------------------------------------------------------------------------ *)
+(** the specification's Jordan-Wigner matrices are square of dimension 2^M, for every number type *)
+Lemma poly_matrix_square (K : Type) (NO : numops K) (M : nat) (p : list (Poly.monomial * K)) :
+  square K (Nat.pow 2 M) (poly_matrix K NO M p).
+Proof.
+  unfold poly_matrix, square. cbv zeta. split.
+  - rewrite map_length, seq_length. reflexivity.
+  - intros r Hr. apply in_map_iff in Hr. destruct Hr as [t [<- _]]. rewrite map_length, seq_length. reflexivity.
+Qed.
+
+Lemma op_matrix_square (K : Type) (NO : numops K) (M : nat) (o : Fock.op) :
+  square K (Nat.pow 2 M) (op_matrix K NO M o).
+Proof. apply poly_matrix_square. Qed.
